@@ -99,7 +99,10 @@ def discharge(obls, workers=None, timeout_ms=None, second_backend=False):
         if extra:
             smt = to_smt2(ob, extra)
         ob._smt = smt
-        todo.append((i, smt, timeout_ms, (0, 7, 42)))
+        if ob.kind.startswith("canary"):
+            todo.append((i, smt, 1500, (0,)))
+        else:
+            todo.append((i, smt, timeout_ms, (0, 7, 42)))
     if todo:
         if workers > 1 and len(todo) > 1:
             with mp.get_context("fork").Pool(min(workers, len(todo))) as pool:
